@@ -81,190 +81,165 @@ options // packet A { u8 x, }
 ,
 roots Header, } , }
 ")).
-Eval vm_compute in ("<<<M1599>>>" ++ check (runes_of_ascii "options	{
-    // " ++ [27880; 37322]%N ++ runes_of_ascii "
-//x
-      float	// packet A { u8 x, }
-
-= 
-char[]
-        // @lengthOf(
-    ; Header  =
-
-    false 
-    //
-	/// triple
-
-} 
-// `tick` ""quote"" 'q'
-  	options  {	x 
-=  char[]
-; }
-MetaData i64_
-
-{
-    f64
-	As 
-
-/// triple
-      `
-`
-	,repeatCount	MetaDataX  
-      // `tick` ""quote"" 'q'
-// `tick` ""quote"" 'q'
-
-	,
-
-repeatCount u128 //x
-	,
-
-    metadata msg_type
-`tab	here` ,
-
-} 
-packet options1{
-	repeat	char[
-
-    0123456789 ]  T
-    ,	@tag(	65535
-)
-//x
-
-  @calculatedFrom(
-    ""CRC32"" )
-	@calculatedFrom( """ ++ [28040; 24687]%N ++ runes_of_ascii """
-
-)repeat
-
-string
-Logon
-,
-@lengthOf( u128
-
-)stringy{
-	string_ 
-x
-
-    ,} , @tag(// " ++ [27880; 37322]%N ++ runes_of_ascii "
-
-	10
-
-    )
-
-    u64 tag @lengthOf(
-roots )
-    ,
-    Foo@lengthOf(	Foo) `// not a comment`	,
-string 
-pack 
-`a\` ,	match
-	A  as
-
-    charz{ [3]
-
-    :  x  ,
+Eval vm_compute in ("<<<M387>>>" ++ check (runes_of_ascii "options {
+	StringPrefixLenType = u16;
+	ArrayPrefixLenType = u16;
 }
-, @tag(
-42
-)
-	f64
 
-    msg_type @lengthOf(
-trueish ) ,
+packet SampleBinary {
+	uint16 MsgType `" ++ [28040; 24687; 31867; 22411]%N ++ runes_of_ascii "`,
+	u16 BodyLenght @lengthOf(Body) `" ++ [28040; 24687; 20307; 38271; 24230]%N ++ runes_of_ascii "`,
+	match MsgType as Body {
+		1 : Logon,
+		2 : Logout,
+		3 : Heartbeat,
+		4 : RiskControlRequest,
+		5 : RiskControlResponse,
+	},
+	@calculatedFrom(""CRC32"")
+	u32 Ckecksum `" ++ [26657; 39564; 21644]%N ++ runes_of_ascii "`,
+}
 
-match 
-pack/// triple
-  as
-options1{ 
-""" ++ [28040; 24687]%N ++ runes_of_ascii """ : 	 // packet A { u8 x, }
-	string_
-    ,[
+packet Logon {
+	@leftPad('0')
+	char[10] UserName `" ++ [29992; 25143; 21517]%N ++ runes_of_ascii "`,
+	string Password `" ++ [23494; 30721]%N ++ runes_of_ascii "`,
+	uint64 ClientId `" ++ [23458; 25143; 31471]%N ++ runes_of_ascii "ID`,
+	u16 HeartbeatInterval `" ++ [24515; 36339; 38388; 38548]%N ++ runes_of_ascii "`,
+}
 
-65535 ,
+packet Logout {
+	@rightPad('0')
+	char[10] UserName `" ++ [29992; 25143; 21517]%N ++ runes_of_ascii "`,
+	uint64 ClientId `" ++ [23458; 25143; 31471]%N ++ runes_of_ascii "ID`,
+}
 
-    7
-	,
+packet Heartbeat {
+}
 
-    ""a\""b"" ,7]//	t
-:
+packet RiskControlRequest {
+	string UniqueOrderId `" ++ [21807; 19968; 35746; 21333; 21495]%N ++ runes_of_ascii "`,
+	char[16] ClOrdID `" ++ [23458; 25143; 35746; 21333; 21495]%N ++ runes_of_ascii "`,
+	char[3] MarketID `" ++ [24066; 22330]%N ++ runes_of_ascii "id`,
+	char[12] SecurityID `" ++ [35777; 21048; 20195; 30721]%N ++ runes_of_ascii "`,
+	char Side `" ++ [20080; 21334; 26041; 21521]%N ++ runes_of_ascii "`,
+	char OrderType `" ++ [35746; 21333; 31867; 22411]%N ++ runes_of_ascii "`,
+	u64 Price `" ++ [20215; 26684]%N ++ runes_of_ascii "`,
+	u32 Qty `" ++ [25968; 37327]%N ++ runes_of_ascii "`,
+	repeat string ExtraInfo `" ++ [38468; 21152; 20449; 24687]%N ++ runes_of_ascii "`,
+	repeat SubOrder {
+		char[16] ClOrdID `" ++ [23376; 35746; 21333; 21495]%N ++ runes_of_ascii "`,
+		u64 Price `" ++ [23376; 35746; 21333; 20215; 26684]%N ++ runes_of_ascii "`,
+		u32 Qty `" ++ [23376; 35746; 21333; 25968; 37327]%N ++ runes_of_ascii "`,
+	},
+}
 
-f32a
+packet RiskControlResponse {
+	string UniqueOrderId `" ++ [21807; 19968; 35746; 21333; 21495]%N ++ runes_of_ascii "`,
+	i32 Status `" ++ [29366; 24577]%N ++ runes_of_ascii "`,
+	string Msg `" ++ [32467; 26524; 20449; 24687]%N ++ runes_of_ascii "`,
+	repeat Detail,
+}
 
-    4294967296 : 
-o ,
-
-    }
+packet Detail {
+	string RuleName `" ++ [35268; 21017; 21517; 31216]%N ++ runes_of_ascii "`,
+	u16 Code `" ++ [21407; 22240; 20195; 30721]%N ++ runes_of_ascii "`,
+}")).
+Eval vm_compute in ("<<<M1327>>>" ++ check (runes_of_ascii "// top
+options
+    // c0
+{ // c1a
+  // c1b
+LittleEndian
+    // c2
+= true // c4a
+  // c4b
+;
+    // c5
+StringPrefixLenType =
+    // c7
+u16 // c8
+; // c9a
+  // c9b
+FixedStringPadChar // c10
+= // c11
+' '
+    // c12
+;
+    // c13
+} // c14
+packet // c15a
+  // c15b
+Logon { // c17a
+  // c17b
+@leftPad ( '0' ) // c21
+char[ // c22a
+  // c22b
+10 // c23
+] // c24
+tag7 // c25a
+  // c25b
 ,
-
-    char[]
-
-falsey
-
-, }	// " ++ [128512]%N ++ runes_of_ascii " emoji
+    // c26
+} // c27a
+  // c27b
+root packet
+    // c29
+Ack // c30a
+  // c30b
+{ int32 // c32
+Px , // c34
+uint16
+    // c35
+count // c36
+,
+    // c37
+string // c38a
+  // c38b
+Qty
+    // c39
+, // c40a
+  // c40b
+string // c41a
+  // c41b
+OrderId // c42
+, string Flags // c45a
+  // c45b
+,
+    // c46
+u8 // c47a
+  // c47b
+x // c48a
+  // c48b
+, // c49a
+  // c49b
+match // c50
+x // c51
+as
+    // c52
+Body
+    // c53
+{ // c54
+[ // c55a
+  // c55b
+58 // c56
+, // c57
+169 // c58a
+  // c58b
+] // c59
+: Logon , // c62a
+  // c62b
+} // c63
+,
+    // c64
+}
+    // c65
 ")).
-Eval vm_compute in ("<<<M17>>>" ++ check (runes_of_ascii "
-MetaData
-    x{ len
-    crc , float
-    // " ++ [128512]%N ++ runes_of_ascii " emoji
-    asx, i32 uint8x`line1
-line2` ,u16
-tag
-// `tick` ""quote"" 'q'
-//x
-`it's` , As string_
-    ,
-}
-packet metadata {@lengthOf(zchar )// c
-i64_ @calculatedFrom(
-""\" ++ [233]%N ++ runes_of_ascii """	) , //x
-@leftPad
-    ( '\x00' ) zchar[ 10
-] zchar
-    ,
-    lengthOf //x
-string_ ,int @lengthOf( pack
-    ),
-    zchar[ 00 ]
-    Foo , @lengthOf( packetx )
-    @leftPad (
-'\x00'// " ++ [27880; 37322]%N ++ runes_of_ascii "
-) @calculatedFrom(
-    // @lengthOf(
-    ""x y"" )uint16
-len@calculatedFrom( """" )
-`two words` , int8
-    metadata @lengthOf( Foo )`two words`	, // @lengthOf(
-}options
-{ }
-packet
-pack{
-// `tick` ""quote"" 'q'
-//
-f64
-    o , T BodyLength  ,
-    repeat
-    uint8 chars  `" ++ [233]%N ++ runes_of_ascii "`
-    ,repeat
-    // c
-    Logon
-u
-    // " ++ [128512]%N ++ runes_of_ascii " emoji
-    ,@tag(
-    0123456789 )
-char[] repeatCount @lengthOf(// " ++ [27880; 37322]%N ++ runes_of_ascii "
-_x )
-    // c
-    `
-` ,//
-@tag(
-// packet A { u8 x, }
-/// triple
-7 )  repeatCount @calculatedFrom(""packet"" ) `{ , }` , }")).
-Eval vm_compute in ("<<<M1359>>>" ++ check (runes_of_ascii "options {
+Eval vm_compute in ("<<<M1581>>>" ++ check (runes_of_ascii "options {
     FixedStringPadFromLeft = true;
     FixedStringPadChar = '0';
 }
+
 packet Leg {
     repeat InSym93 {
         zchar[3] Acct,
@@ -276,9 +251,11 @@ packet Leg {
     f64 Note,
     uint16 Px,
 }
+
 packet Quote {
     zchar[2] OrderId,
 }
+
 packet Ack {
     repeat string lastPx,
     zchar[4] price,
@@ -286,18 +263,23 @@ packet Ack {
     Quote,
     int8 Acct,
 }
+
 packet Fill {
     repeat Leg,
-    @rightPad('0') char[11] Note,
+    @rightPad('0')
+    char[11] Note,
     f64 Px,
-    @rightPad('\x00') char[5] Flags,
+    @rightPad('\x00')
+    char[5] Flags,
     zchar[9] x,
     string msgKind,
 }
+
 root packet Order {
     Leg,
     repeat Ack,
-    @rightPad('\x00') char[3] Side2,
+    @rightPad('\x00')
+    char[3] Side2,
     repeat char[1] seqNo,
     u16 clOrdID,
     match clOrdID as Body {
@@ -307,744 +289,779 @@ root packet Order {
         159 : Fill,
     },
     u32 venue @calculatedFrom(""CRC32""),
+}")).
+Eval vm_compute in ("<<<M1353>>>" ++ check (runes_of_ascii "  options
+{ 
+StringPrefixLenType = u8 ; ArrayPrefixLenType= 
+u32
+; 
+FixedStringPadFromLeft
+
+=true ; FixedStringPadChar
+=' '
+
+; }packet 
+Leg 
+{}
+	packet  Heartbeat  {
+    zchar[ 6 ]	msgKind
+
+,
+@rightPad  ('0')
+char[ 3
+    ]	Qty , 
+zchar[
+    9 ]	Side2
+
+    , i8 Acct
+
+    ,
 }
+packet Logout
+	{
+
+int8  x,
+
+} packet	Order
+
+{char[]
+
+Acct
+	,
+	zchar[ 8 ] count
+	,
+
+    u32 OrderId , uint8  lastPx ,  u16
+clOrdID, zchar[7
+    ]	Note,
+    }root
+    packet
+    Reject
+
+{
+	@leftPad (  ' ')
+
+    char[
+
+    8
+
+    ]
+Side2
+
+    ,
+
+i8
+	clOrdID
+    ,repeat
+f32 
+x
+,	u32
+
+    lastPx ,  match lastPx 
+as
+
+    Body
+    {
+[
+
+30 
+,147 ]
+    : Heartbeat,134 : Leg , 183
+	:  Logout ,
+
+40: Order ,
+    } , 
+u16
+
+    Ref
+    @calculatedFrom(	""CRC32"") 
+,
+	}")).
+Eval vm_compute in ("<<<M1862>>>" ++ check (runes_of_ascii "root
+    packet u8x  {
+    char 
+        // trailing space 
+    // @lengthOf(
+		i64_  ,
+repeat
+
+char[1
+
+] 
+Z9_ 
+,@tag( 
+//x
+// " ++ [128512]%N ++ runes_of_ascii " emoji
+42)
+repeat
+
+Logon
+MetaDataX, 
+@leftPad 
+    //
+    () 
+Foo
+@lengthOf(As 
+)	// " ++ [128512]%N ++ runes_of_ascii " emoji
+  ,  match
+
+    u128 
+as//	t
+calculatedFrom { // " ++ [128512]%N ++ runes_of_ascii " emoji
+    4294967296
+
+:
+    BodyLength 
+,	3  : A
+    ,  //
+
+	[
+    4294967296 //
+		, ""packet""
+	]
+
+: 
+o ,
+65535:
+roots } ,
+    repeat  Pad	{
+uint64
+x @calculatedFrom(
+    """ ++ [128512]%N ++ runes_of_ascii """
+
+) 
+,
+    a1@lengthOf(
+    As )
+	`line1
+line2`
+    , repeat	string_ {
+repeat  uint32
+
+_x
+	,
+f32 MetaDataX
+
+`it's` 
+	//	t
+    	,  u64
+    As@lengthOf(	crc
+) ,
+} , 
+roots
+	, } ,
+zchar[00
+
+    ] 	 // @lengthOf(
+	  u128
+,
+	} 
+//	t
+ 
 ")).
-Eval vm_compute in ("<<<M1124>>>" ++ check (runes_of_ascii "// top
+Eval vm_compute in ("<<<M87>>>" ++ check (runes_of_ascii "root packet matchKey{ match	Foo as Z9_ {// c
+[ ""x y"" , ""1"" ,
+    007
+, 7 ]: pack,
+""`tick`"" :
+u128 ,""a	b"" :msg_type,[
+//
+//
+00 ,	65535
+] : a1, ""it's"" :Foo
+    , // " ++ [128512]%N ++ runes_of_ascii " emoji
+[ //x
+""""
+] : u, } ,
+} packet calculatedFrom // c
+{msg_type {
+    T @calculatedFrom( ""\n"" ) ,float64 i8i8, As`
+`, u32 rootA @lengthOf(
+// c
+// `tick` ""quote"" 'q'
+float
+) ,}
+, }
+    packet
+    // " ++ [27880; 37322]%N ++ runes_of_ascii "
+    x_y_z
+{@tag( //x
+0 ) i64_
+    // " ++ [27880; 37322]%N ++ runes_of_ascii "
+    @lengthOf(
+    //
+    MetaDataX
+) ,	}packet A { @calculatedFrom( ""a\\"" )@calculatedFrom(""abc"" ) _x
+u	`say ""hi""` ,
+    } options
+    // `tick` ""quote"" 'q'
+    { // trailing space 
+metadata = ""a\\"" ; // a // b
+}")).
+Eval vm_compute in ("<<<M1116>>>" ++ check (runes_of_ascii "// top
+MetaData // c0
+Packet // c1
+{ // c2
+} // c3
+packet // c4
+charz // c5
+{ // c6
+Foo // c7
+asx // c8
+`it's` // c9
+, // c10
+@lengthOf( // c11
+T // c12
+) // c13
+@calculatedFrom( // c14
+"""" // c15
+) // c16
+@calculatedFrom( // c17
+""x y"" // c18
+) // c19
+zchar[ // c20
+007 // c21
+] // c22
+repeatCount // c23
+@lengthOf( // c24
+int // c25
+) // c26
+`a\` // c27
+, // c28
+i8 // c29
+string_ // c30
+, // c31
+repeat // c32
+options1 // c33
+Pad // c34
+, // c35
+} // c36
+root // c37
+packet // c38
+Packet // c39
+{ // c40
+int8 // c41
+float // c42
+`doc` // c43
+, // c44
+} // c45
+")).
+Eval vm_compute in ("<<<M1637>>>" ++ check (runes_of_ascii "MetaData u128 {
+    zchar[3] matchKey `crlf
+        line`,
+}
+
+// packet A { u8 x, }
+options {
+}
+
+root packet rootA {
+    @calculatedFrom(""{,}"")
+    repeat u16 len,
+    repeat body,
+    i8i8 @lengthOf(packetx),
+    metadata int `line1
+        line2`,
+    uint8x `two words`,
+    int16 x_y_z,
+    repeatCount,
+    Logon {
+        repeat i8 Packet `line1
+                line2`,
+    },
+}
+
+options {
+    // " ++ [128512]%N ++ runes_of_ascii " emoji
+    lengthOf = ' ';
+    i64_ = ""{,}"";
+    msg_type = '0';
+    u = i32;
+    _x = ""abc"";
+}")).
+Eval vm_compute in ("<<<M1726>>>" ++ check (runes_of_ascii "
+// top
+      options  // c0
+  { // c1
+
+f32a	// c2
+=  // c3
+0 	 // c4
+	}  // c5
+packet// c6
+		trueish 	 // c7
+	  { 	 // c8
+  	}// c9
+	MetaData 	 // c10
+_x  // c11
+	  {	// c12
+    	char[ 	 // c13
+    0123456789 	 // c14
+      ] 	 // c15
+
+zchar  // c16
+
+, 	 // c17
+	string // c18
+  crc	// c19
+    , 	 // c20
+	char[	// c21
+		1	// c22
+
+  ] // c23
+  options1 // c24
+	  ,	// c25
+	uint8  // c26
+    repeatCount	// c27
+    	, // c28
+    } 	 // c29
+")).
+Eval vm_compute in ("<<<M306>>>" ++ check (runes_of_ascii "packet rootA { @tag(0123456789 ) options1 {int32 uint8x
+    `u8 x,`
+    , u8x
+//x
+// packet A { u8 x, }
+{
+    match Header as
+    metadata {[	10 ]
+: pack } ,
+    } , f64 // `tick` ""quote"" 'q'
+chars , }
+, @lengthOf( body ) u64
+// @lengthOf(
+//
+Z9_ , }
+MetaData repeatCount
+    {zchar[10 ] string_ , f64 A
+, u32 BodyLength , zchar[ 00 ] uint8x ,
+    trueish
+leftPad,char[ 65535  ] rootA	, }
+//	t
+")).
+Eval vm_compute in ("<<<M118>>>" ++ check (runes_of_ascii "packet As{@leftPad ( )
+    char[ 0	]
+Logon, char[	0
+]
+Z9_@calculatedFrom(	""abc""
+    // c
+    ) ,  @tag( 4294967296 )
+    i64 matchKey @calculatedFrom(
+    ""// no comment""//
+)`two words` ,i16 A
+, }// " ++ [27880; 37322]%N ++ runes_of_ascii "
+packet T { zchar[
+3 ] tag// packet A { u8 x, }
+@lengthOf(
+    chars) , } packet// " ++ [128512]%N ++ runes_of_ascii " emoji
+BodyLength  {calculatedFrom @lengthOf( body )
+`
+`	, } // a // b")).
+Eval vm_compute in ("<<<M1549>>>" ++ check (runes_of_ascii "MetaData T {
+    a1 Packet,
+    uint8x Pad `" ++ [233]%N ++ runes_of_ascii "`,
+    a1 MetaDataX,
+    zchar[00] metadata `u8 x,`,
+    Pad x `
+        `,
+    i8 u8x,
+}
+
+options {
+    As = false;
+}
+
+root packet options1 {
+    @calculatedFrom(""// no comment"")
+    @lengthOf(_x)
+    @tag(007)
+    repeat f32 i8i8 `" ++ [233]%N ++ runes_of_ascii "`,
+    @rightPad(' ')
+    repeat Pad,
+}")).
+Eval vm_compute in ("<<<M1615>>>" ++ check (runes_of_ascii "  // top
+  packet // c0a
+  // c0b
+  orderItem// c1a
+	// c1b
+		{
+    u8 	 // c3
+    a// c4
+  , 	 // c5a
+	// c5b
+	}
+// c6
+root
+	packet	// c8a
+      // c8b
+    newOrder  // c9a
+	// c9b
+      {
+orderItem// c11
+      , u8
+    // c13
+
+  x	// c14a
+    	// c14b
+,
+    // c15
+  } 	 // c16")).
+Eval vm_compute in ("<<<M1274>>>" ++ check (runes_of_ascii "// top
 options
     // c0
-{ // c1
-uint8x // c2a
-  // c2b
-= 007 // c4a
-  // c4b
-; lengthOf
-    // c6
-= i8 ; // c9a
-  // c9b
-} packet i64_
-    // c12
-{ // c13
-@calculatedFrom( // c14
-""1""
-    // c15
-) // c16
-@tag( // c17
-3 )
-    // c19
-@lengthOf(
-    // c20
-rootA ) // c22
-repeat // c23
-int8 // c24a
-  // c24b
-Packet // c25a
-  // c25b
-`u8 x,` // c26
-, // c27
-} // c28a
-  // c28b
-root
-    // c29
-packet // c30a
-  // c30b
-stringy
-    // c31
-{ // c32a
-  // c32b
-@rightPad ( ' ' // c35
-) // c36
-repeat // c37a
-  // c37b
-char[ // c38
-10 // c39
-] repeatCount // c41a
-  // c41b
-, // c42
-@tag( // c43a
-  // c43b
-255
-    // c44
-) // c45
-float64
-    // c46
-msg_type
-    // c47
-@calculatedFrom( ""packet""
-    // c49
-) // c50a
-  // c50b
-, // c51a
-  // c51b
-} // c52
-")).
-Eval vm_compute in ("<<<M243>>>" ++ check (runes_of_ascii "// a // b
-packet stringy { @tag( 3 ) // trailing space 
-i64
-    len
-,@calculatedFrom( ""1""  ) char[
-0 ]
-x @lengthOf(Foo )
-,@calculatedFrom( """" )
-body
-// c
-// " ++ [128512]%N ++ runes_of_ascii " emoji
-@lengthOf(
-calculatedFrom )`line1
-line2`
-    , @calculatedFrom( ""it's"" // " ++ [128512]%N ++ runes_of_ascii " emoji
-)// packet A { u8 x, }
-match falsey
-    // packet A { u8 x, }
-    as u8x {[
-""" ++ [128512]%N ++ runes_of_ascii """
-    , // a // b
-42 , 1 ,10 ]
-: Header , } ,
-// trailing space 
-// `tick` ""quote"" 'q'
-} MetaData// " ++ [128512]%N ++ runes_of_ascii " emoji
-stringy{ f32a
-    u128 `{ , }` , char[ // a // b
-10 ]u128	, chars _x , zchar[ 65535 // trailing space 
-]/// triple
-falsey
-    `{ , }`
-    , _x i64_
-, int32
-Packet
-`crlf
-line` , } MetaData lengthOf
-{
-    }
-// trailing space 
-")).
-Eval vm_compute in ("<<<M1519>>>" ++ check (runes_of_ascii "//x
-packet x {
-    @lengthOf(string_)
-    // `tick` ""quote"" 'q'
-    // trailing space 
-    msg_type {
-        int @lengthOf(chars) `" ++ [28040; 24687; 31867; 22411]%N ++ runes_of_ascii "`,
-        int `a\`,
-    },
-    uint32 chars @calculatedFrom(""`tick`"") `
-        `,
-    @lengthOf(packetx)
-    match metadata as x_y_z {
-        65535 : x,
-        007 : u,
-        [7, ""// no comment"", """ ++ [28040; 24687]%N ++ runes_of_ascii """] : x,
-        ""a\\"" : MetaDataX,
-        0123456789 : lengthOf,
-        10 : float,
-    },
-    u16 Logon @calculatedFrom(""x y"") `tab	here`,
-    @lengthOf(Foo)
-    zchar,
-}
-
-packet tag {
-}
-
-root packet x_y_z {
-}
-
-MetaData int {
-    string A `" ++ [233]%N ++ runes_of_ascii "`,
-}")).
-Eval vm_compute in ("<<<M1374>>>" ++ check (runes_of_ascii "packet Sub { // c2a
-  // c2b
-u8 a
+{ // c1a
+  // c1b
+FixedStringPadFromLeft
+    // c2
+= // c3
+true
     // c4
-, // c5
-@calculatedFrom( ""CRC16"" // c7
-)
-    // c8
-i32 // c9a
-  // c9b
-SubSum
+; // c5a
+  // c5b
+}
+    // c6
+root // c7
+packet P {
     // c10
-, }
-    // c12
-root packet // c14
-Frame // c15a
-  // c15b
-{ // c16a
+char[ // c11a
+  // c11b
+4 // c12a
+  // c12b
+] z // c14
+,
+    // c15
+} // c16a
   // c16b
-u16 // c17a
-  // c17b
-MsgType // c18a
-  // c18b
-, // c19
-u16 BodyLen // c21a
-  // c21b
-@lengthOf( // c22
-Body // c23
-) // c24
-, Sub Body
-    // c27
-, // c28
-string note // c30
-,
-    // c31
-@calculatedFrom( // c32
-""CRC16"" ) // c34
-i32 // c35
-Checksum // c36
-, u8
-    // c38
-tail // c39a
-  // c39b
-,
-    // c40
-} // c41
 ")).
-Eval vm_compute in ("<<<M193>>>" ++ check (runes_of_ascii "
-root packet lengthOf{
-    char[ 3 ] Pad ,	@rightPad
-    (  '0'
-)
-    crc `doc` ,i32 //x
-uint8x
-,	zchar { match Logon  as int { [ 0 , """ ++ [233]%N ++ runes_of_ascii "t" ++ [233]%N ++ runes_of_ascii """] :o , ""// no comment"" :len ,
-} , asx
-{
-    //x
-    char[	10 ]
-u128 // a // b
-@lengthOf(  x_y_z)`say ""hi""`, }
-/// triple
-//
-, char[
-1 ] A, u// c
-chars
-    `` , }, repeat matchKey
-{ //x
-string trueish@calculatedFrom(
-    ""a	b""  )  , repeat
-    // packet A { u8 x, }
-    i8 msg_type `it's` ,	} , /// triple
-}
-packet float { }")).
-Eval vm_compute in ("<<<M14>>>" ++ check (runes_of_ascii "MetaData u128
-    {// a // b
-string zchar //x
-`two words` ,u16 packetx
-`a\` , char[ 1 ] Logon	, len crc, char[
-7]i8i8,char[]calculatedFrom,
-} // @lengthOf(
-MetaData u
-    { u// " ++ [128512]%N ++ runes_of_ascii " emoji
-u128
-, //	t
-}root packet metadata { }options	{ matchKey =
-    255
-;
-x_y_z
-= 007 crc=int16
-; zchar =// c
-char[42 ]
-; int
-= true ;
-} options  {
-Header = """ ++ [128512]%N ++ runes_of_ascii """
-;
-len
-    = ' ' ; matchKey= """" ;MetaDataX =' '
-; o
-    = '\x00' ; }
-/// triple
-")).
-Eval vm_compute in ("<<<M1764>>>" ++ check (runes_of_ascii "packet	// c
-  As
-	{
-    @tag(	42  )
-
-repeat
-    Logon
-uint8x
-
-    // " ++ [128512]%N ++ runes_of_ascii " emoji
-  //
-	`` ,
-repeat int32 x_y_z
+Eval vm_compute in ("<<<M351>>>" ++ check (runes_of_ascii "MetaData leftPad// packet A { u8 x, }
+{ string u128 `say ""hi""` //
+, // c
+A packetx
+    //	t
     , char[
-7 // trailing space 
-
-] pack
-, 
-repeat string
-	crc
-
-/// triple
-	// c
-	`// not a comment`,
-
-@calculatedFrom(  ""`tick`"") @tag( 1
-    ) match
-        // @lengthOf(
-
-	chars as 
-MetaDataX 
-{
-
-    4294967296  :// @lengthOf(
-  T
-
-    , } /// triple
-      , }
-
-")).
-Eval vm_compute in ("<<<M299>>>" ++ check (runes_of_ascii "// packet A { u8 x, }
-MetaData roots{ char[ 00]lengthOf
-``  , As stringy, x	calculatedFrom ,} packet i8i8	{
-crc `crlf
-line` , @rightPad// a // b
-( )zchar[ 42] falsey // trailing space 
+//
+// packet A { u8 x, }
+42
+]
+leftPad
+    `tab	here` // trailing space 
+,i16 crc ,
+string uint8x // a // b
 ,
-    /// triple
-    @tag( 42 ) u32	leftPad  , @tag( 42 ) a1@lengthOf( Z9_ ) , match leftPad as crc{ [""a\""b"" , 1
-, 255
-]:	trueish ,3
-: float ,
-0 :lengthOf
-    ,
-} ,}")).
-Eval vm_compute in ("<<<M1369>>>" ++ check (runes_of_ascii "
-options { LittleEndian= 
-true  ;  }
-    packet 
-Logon
+}")).
+Eval vm_compute in ("<<<M1788>>>" ++ check (runes_of_ascii "// top
+    root// c0a
 
-{
+// c0b
+    packet P  { 
+  // c3
+    u16
+// c4
 
-u8
-x
+a 
+    // c5
+	, 
+// c6
+  u32// c7a
+
+	// c7b
+
+Sum// c8
+@calculatedFrom(  // c9a
+// c9b
+""CRC32""
+)
+	,
+
+    }	// c13
+ 
+")).
+Eval vm_compute in ("<<<M1683>>>" ++ check (runes_of_ascii "root packet _x {
+    uint32 trueish @calculatedFrom(""1"") `crlf
+        line`,
+}
+
+//
+packet Header {
+    repeat u64 stringy `// not a comment`,
+    float32 msg_type,
+}")).
+Eval vm_compute in ("<<<M418>>>" ++ check (runes_of_ascii "packet uint8x
+{ match pack
+    @rightPad msg_type	{
+    0123456789 :	float
+}
 ,
-
-    }packet
-
-    Logout 
-{ u16	reason,} root  packet
-
-Frame
-{ u16 Kind  ,  u16
-Kind2 ,  match
-Kind as  Body
-    {
-    1 :
-
-Logon  ,
-    [	2 ,
-	3 ,	4]
-    :
-
-Logout
-, 100
-:Logon ,},
-    match	Kind2
-
-    as	Trailer{
-	0 
-:
-	Logout 
-,  }
-    ,	}")).
-Eval vm_compute in ("<<<M1308>>>" ++ check (runes_of_ascii "packet A {
-    u8 a,
-}
-packet B {
-    u16 b,
-}
-packet C {
-    u32 c,
-}
-root packet M {
-    u16 Kc, u16 Kb, u16 Ka,
-    match Kc as X {
-        9 : A,
-        10 : B,
-    },
-    match Kb as Y {
-        2 : C,
-        1 : A,
-    },
-    match Ka as Z {
-        1 : B,
-    },
-    A, B, C,
-}
+} packet //	t
+a1
+    { } options {packetx
+    = '\x00'	; u128= ""a	b""  ; }
 ")).
-Eval vm_compute in ("<<<M1736>>>" ++ check (runes_of_ascii "root
-
-packet tag
-
-    {	@calculatedFrom(""{,}"" 
-	    // `tick` ""quote"" 'q'
-
-	) @tag(
-	//x
-	// " ++ [27880; 37322]%N ++ runes_of_ascii "
-	  42
-) i64_ 
-@lengthOf(	calculatedFrom
-) ,
-	zchar[ // " ++ [128512]%N ++ runes_of_ascii " emoji
-3 	 // @lengthOf(
-  ]
-    int	, }
-    root	// c
-packet Foo 
-{	}
-    // @lengthOf(
+Eval vm_compute in ("<<<M523>>>" ++ check (runes_of_ascii "packet uint8x
+{ match pack
+    as msg_type	{
+    0123456789 :	float
+}
+,
+} packet //	t
+a1
+    { } options {packetx
+    = '\x00'	; u128= MetaData  ; }
 ")).
-Eval vm_compute in ("<<<M1605>>>" ++ check (runes_of_ascii "options { Z9_  =// trailing space 
+Eval vm_compute in ("<<<M482>>>" ++ check (runes_of_ascii "packet uint8x
+{ match pack
+    as msg_type	{
+    0123456789 :	float
+}
+,
+} packet //	t
+a1
+    { } { options packetx
+    = '\x00'	; u128= ""a	b""  ; }
+")).
+Eval vm_compute in ("<<<M472>>>" ++ check (runes_of_ascii "packet uint8x
+{ match pack
+    as msg_type	{
+    0123456789 :	float
+}
+,
+} packet //	t
+a1
+    } { options {packetx
+    = '\x00'	; u128= ""a	b""  ; }
+")).
+Eval vm_compute in ("<<<M525>>>" ++ check (runes_of_ascii "packet uint8x
+{ match pack
+    as msg_type	{
+    0123456789 :	float
+}
+,
+} packet //	t
+a1
+    { } options {packetx
+    = '\x00'	; u128= ""a	b""   }
+")).
+Eval vm_compute in ("<<<M405>>>" ++ check (runes_of_ascii "packet uint8x
+{  pack
+    as msg_type	{
+    0123456789 :	float
+}
+,
+} packet //	t
+a1
+    { } options {packetx
+    = '\x00'	; u128= ""a	b""  ; }
+")).
+Eval vm_compute in ("<<<M423>>>" ++ check (runes_of_ascii "packet uint8x
+{ match pack
+    as ,	{
+    0123456789 :	float
+}
+,
+} packet //	t
+a1
+    { } options {packetx
+    = '\x00'	; u128= ""a	b""  ; }
+")).
+Eval vm_compute in ("<<<M430>>>" ++ check (runes_of_ascii "packet uint8x
+{ match pack
+    as msg_type	{
+     :	float
+}
+,
+} packet //	t
+a1
+    { } options {packetx
+    = '\x00'	; u128= ""a	b""  ; }
+")).
+Eval vm_compute in ("<<<M1908>>>" ++ check (runes_of_ascii "packet
+	A 
+{	match k
 
-  ""packet""
-; float=
-	false 
-;
+as 
+n{[
 
-A	=
-	' '}
-    // c
+""a"",	""bb""  ,
 
-MetaData
-pack
-{
+""c c""
+	, ""d""	,
+	""e""	,""f""	,
 
-zchar[3
-	]leftPad
-    , 
-zchar	falsey `it's`	,
+""g"" 
+, ""h""
 
-char[]	repeatCount
+,
+""i"" ,""j"",
+""k"" 
+]  : B 2 :
+    C }
     ,
-	char[
-65535// " ++ [128512]%N ++ runes_of_ascii " emoji
-  ]
-Z9_	, 
-} 
-//	t
-")).
-Eval vm_compute in ("<<<M38>>>" ++ check (runes_of_ascii "options
-{ falsey
-    /// triple
-    = false ; falsey=
-    //
-    int16// `tick` ""quote"" 'q'
-;
-    // `tick` ""quote"" 'q'
-    A =
-    // trailing space 
-    u32  ;
-    trueish	= 1  ;
     }
 ")).
-Eval vm_compute in ("<<<M1619>>>" ++ check (runes_of_ascii "packet
+Eval vm_compute in ("<<<M1585>>>" ++ check (runes_of_ascii "root packet lengthOf {
+    @leftPad(' ')
+    repeat char MetaDataX,
+}
+
+MetaData Pad {
+    msg_type rootA `// not a comment`,
+}")).
+Eval vm_compute in ("<<<M1144>>>" ++ check (runes_of_ascii "MetaData
+// c
+leftPad { chars MetaDataX , } packet repeatCount { char[ 255 ] uint8x `" ++ [233]%N ++ runes_of_ascii "` , } MetaData pack { As Foo , }")).
+Eval vm_compute in ("<<<M1176>>>" ++ check (runes_of_ascii "MetaData leftPad { chars MetaDataX , } packet repeatCount { char[ 255 ] uint8x `" ++ [233]%N ++ runes_of_ascii "` , }
+// c
+MetaData pack { As Foo , }")).
+Eval vm_compute in ("<<<M961>>>" ++ check (runes_of_ascii "packet A {
+    u16 len @lengthOf(body) `tab
+	x`,
+    u32 crc @calculatedFrom(""CRC32"") `tab
+	x`,
+    string body,
+}")).
+Eval vm_compute in ("<<<M962>>>" ++ check (runes_of_ascii "packet A {
+    Inner {
+        u8 x `tab
+	x`,
+        Deep {
+            u8 y `tab
+	x`,
+        },
+    },
+}")).
+Eval vm_compute in ("<<<M158>>>" ++ check (runes_of_ascii "
+MetaData charz { As u128 , Logon options1 `say ""hi""` ,
+    zchar[ 0
+// @lengthOf(
+//
+]Logon ,
+    }
+")).
+Eval vm_compute in ("<<<M634>>>" ++ check (runes_of_ascii "
+packet
+    asx {matc@lengthOfh u128 as lengthOf
+{
 //	t
-    Logon  {
-
-metadata
-@calculatedFrom(	""a\\""	)
-
-, 
-@tag(
-
-42 ) // " ++ [128512]%N ++ runes_of_ascii " emoji
-@tag(	65535 )repeat u16
-
-o `line1
-line2`
-
-    ,
-	}
-    packet
-float{ 
-}
-
-")).
-Eval vm_compute in ("<<<M461>>>" ++ check (runes_of_ascii "packet uint8x
-{ match pack
-    as msg_type	{
-    0123456789 :	float
-}
-,
-} packet packet //	t
-a1
-    { } options {packetx
-    = '\x00'	; u128= ""a	b""  ; }
-")).
-Eval vm_compute in ("<<<M543>>>" ++ check (runes_of_ascii "packet uint8x
-{ mat'1'ch pack
-    as msg_type	{
-    0123456789 :	float
-}
-,
-} packet //	t
-a1
-    { } options {packetx
-    = '\x00'	; u128= ""a	b""  ; }
-")).
-Eval vm_compute in ("<<<M701>>>" ++ check (runes_of_ascii "// @lengthOf(
-packet i8i8 { u128 o , }
-options { MetaDataX = true;
-    BodyLength =""packet"" ""packet"" x_y_z= 007
-crc //x
-= ""abc"" ;
-    msg_type =
-i16 }")).
-Eval vm_compute in ("<<<M452>>>" ++ check (runes_of_ascii "packet uint8x
-{ match pack
-    as msg_type	{
-    0123456789 :	float
-}
-}
-, packet //	t
-a1
-    { } options {packetx
-    = '\x00'	; u128= ""a	b""  ; }
-")).
-Eval vm_compute in ("<<<M495>>>" ++ check (runes_of_ascii "packet uint8x
-{ match pack
-    as msg_type	{
-    0123456789 :	float
-}
-,
-} packet //	t
-a1
-    { } options {packetx
-     '\x00'	; u128= ""a	b""  ; }
-")).
-Eval vm_compute in ("<<<M668>>>" ++ check (runes_of_ascii "// @len'1'gthOf(
-packet i8i8 { u128 o , }
-options { MetaDataX = true;
-    BodyLength =""packet"" x_y_z= 007
-crc //x
-= ""abc"" ;
-    msg_type =
-i16 }")).
-Eval vm_compute in ("<<<M711>>>" ++ check (runes_of_ascii "// @lengthOf(
-packet i8i8 { u128 o , }
-options { MetaDataX = true;
-    BodyLength =""packet"" x_y_z= 007
-""crc //x
-= ""abc"" ;
-    msg_type =
-i16 }")).
-Eval vm_compute in ("<<<M699>>>" ++ check (runes_of_ascii "// @lengthOf(
-packet i8i8 { a" ++ [769]%N ++ runes_of_ascii "b o , }
-options { MetaDataX = true;
-    BodyLength =""packet"" x_y_z= 007
-crc //x
-= ""abc"" ;
-    msg_type =
-i16 }")).
-Eval vm_compute in ("<<<M658>>>" ++ check (runes_of_ascii "// @lengthOf(
- i8i8 { u128 o , }
-options { MetaDataX = true;
-    BodyLength =""packet"" x_y_z= 007
-crc //x
-= ""abc"" ;
-    msg_type =
-i16 }")).
-Eval vm_compute in ("<<<M1796>>>" ++ check (runes_of_ascii "packet 
-A
-
-    {  match
-k as
-	n
-
-    { [""a"" 
-, ""bb"" , ""c c""  , ""d""
-    , ""e""
-    ,""f""  ,
-
-    ""g""
-    ]:B
-	,	2 :	C } ,
-}
-
-")).
-Eval vm_compute in ("<<<M1258>>>" ++ check (runes_of_ascii "packet B {
+// `tick` ""quote"" 'q'
+255 : x ,
+    } ,	}")).
+Eval vm_compute in ("<<<M872>>>" ++ check (runes_of_ascii "packet A {
+  match k as n {
+    [""a"", 22, ""c c"", 4, ""e"", 66, ""g"", 8, ""i""] : B
+    2 : C
+  },
+}")).
+Eval vm_compute in ("<<<M603>>>" ++ check (runes_of_ascii "
+packet
+    asx {match u128 as lengthOf
+{
+//	t
+// `tick` ""quote"" 'q'
+255 : x x ,
+    } ,	}")).
+Eval vm_compute in ("<<<M584>>>" ++ check (runes_of_ascii "
+packet
+    asx {match u128 as {
+lengthOf
+//	t
+// `tick` ""quote"" 'q'
+255 : x ,
+    } ,	}")).
+Eval vm_compute in ("<<<M625>>>" ++ check (runes_of_ascii "
+packet
+    asx {match u128 as lengthOf
+{
+//	t
+// `tick` ""quote"" 'q'
+255 : x ,
+    } ,")).
+Eval vm_compute in ("<<<M843>>>" ++ check (runes_of_ascii "packet A {
+  match k as n {
+    [1, ""bb"", 007, ""d"", 5, ""f"", 7] : B,
+    2 : C
+  },
+}")).
+Eval vm_compute in ("<<<M1305>>>" ++ check (runes_of_ascii "packet orderItem {
     u8 a,
 }
-root packet P {
-    u8 K,
-    u8 L @lengthOf(Body),
-    match K as Body {
-        1 : B,
-    },
+root packet newOrder {
+    orderItem,
+    u8 x,
 }
 ")).
-Eval vm_compute in ("<<<M1160>>>" ++ check (runes_of_ascii "MetaData leftPad { chars MetaDataX , } packet repeatCount
-// c
-{ char[ 255 ] uint8x `" ++ [233]%N ++ runes_of_ascii "` , } MetaData pack { As Foo , }")).
-Eval vm_compute in ("<<<M906>>>" ++ check (runes_of_ascii "packet A {
+Eval vm_compute in ("<<<M803>>>" ++ check (runes_of_ascii "packet A {
   match k as n {
-    [""a"", ""bb"", ""c c"", ""d"", ""e"", ""f"", ""g"", ""h"", ""i"", ""j"", ""k"", ""l""] : B,
+    [""a"", ""bb"", ""c c"", ""d""] : B
     2 : C
   },
 }")).
-Eval vm_compute in ("<<<M494>>>" ++ check (runes_of_ascii "packet uint8x
-{ match pack
-    as msg_type	{
-    0123456789 :	float
+Eval vm_compute in ("<<<M1401>>>" ++ check (runes_of_ascii "// top
+packet body {
+    // c2
+    i32 f32a `{ , }`,
 }
-,
-} packet //	t
-a1
-    { } options {")).
-Eval vm_compute in ("<<<M1692>>>" ++ check (runes_of_ascii "packet 
-B 
-{
-    u8 
-a ,
-string  s,
-    } root
-	packet P
 
-{ u16 L 
-@lengthOf(B
-    )
-,  B
-,
-	u8
-
-t ,
-
+// c7
+options {
 }")).
-Eval vm_compute in ("<<<M583>>>" ++ check (runes_of_ascii "
-packet
-    asx {match u128 as lengthOf lengthOf
-{
-//	t
-// `tick` ""quote"" 'q'
-255 : x ,
-    } ,	}")).
-Eval vm_compute in ("<<<M573>>>" ++ check (runes_of_ascii "
-packet
-    asx {match u128 u128 as lengthOf
-{
-//	t
-// `tick` ""quote"" 'q'
-255 : x ,
-    } ,	}")).
-Eval vm_compute in ("<<<M585>>>" ++ check (runes_of_ascii "
-packet
-    asx {match u128 as @lengthOf(
-{
-//	t
-// `tick` ""quote"" 'q'
-255 : x ,
-    } ,	}")).
-Eval vm_compute in ("<<<M281>>>" ++ check (runes_of_ascii "
-packet
-    o	{  }
-packet
-Pad {
-BodyLength // trailing space 
-, } packet metadata //x
-{}")).
-Eval vm_compute in ("<<<M1933>>>" ++ check (runes_of_ascii "packet A {
-    match k as n {
-        [007, ""a"", ""bb"", ""d""] : B,
-        2 : C,
-    },
-}")).
-Eval vm_compute in ("<<<M1602>>>" ++ check (runes_of_ascii "packet stringy {
-}// packet A { u8 x, }
-
-packet u128 {
-    u16 len @lengthOf(u128),
-}")).
-Eval vm_compute in ("<<<M853>>>" ++ check (runes_of_ascii "packet A {
+Eval vm_compute in ("<<<M1283>>>" ++ check (runes_of_ascii "root packet P {
+    u16 a,
+    u32 Sum @calculatedFrom(""CR\
+C32""),
+}
+")).
+Eval vm_compute in ("<<<M781>>>" ++ check (runes_of_ascii "packet A {
   match k as n {
-    [1, 22, 007, 4, 5, 66, 7, 8] : B
+    [""a"", ""bb""] : B
     2 : C
   },
 }")).
-Eval vm_compute in ("<<<M1621>>>" ++ check (runes_of_ascii "MetaData M {
+Eval vm_compute in ("<<<M779>>>" ++ check (runes_of_ascii "packet A {
+  match k as n {
+    [1, 22] : B
+    2 : C
+  },
+}")).
+Eval vm_compute in ("<<<M1633>>>" ++ check (runes_of_ascii "packet body {
+    i32 f32a `{ , }`,
+}
+
+// c
+options {
+}")).
+Eval vm_compute in ("<<<M1210>>>" ++ check (runes_of_ascii "packet body { i32 f32a `{ , }`
+// c
+, } options { }")).
+Eval vm_compute in ("<<<M756>>>" ++ check (runes_of_ascii "zchar ( : f64 ) , repeat f32 u16 float64 , ; :")).
+Eval vm_compute in ("<<<M772>>>" ++ check (runes_of_ascii "false int8 uint64 @lengthOf( , @leftPad :")).
+Eval vm_compute in ("<<<M935>>>" ++ check (runes_of_ascii "packet A {
     u8 x `a
-        b
-      c`,
-    T t `a
-        b
-      c`,
+    b
+  c`,
 }")).
-Eval vm_compute in ("<<<M804>>>" ++ check (runes_of_ascii "packet A {
-  match k as n {
-    [1, ""bb"", 007, ""d""] : B,
-    2 : C
-  },
+Eval vm_compute in ("<<<M1413>>>" ++ check (runes_of_ascii "packet A {
+    u8 x `d" ++ [11]%N ++ runes_of_ascii "`,// c" ++ [11]%N ++ runes_of_ascii "
 }")).
-Eval vm_compute in ("<<<M1534>>>" ++ check (runes_of_ascii "// c
-    packet
-body
-    { i32  f32a `{ , }`,
-	} options
+Eval vm_compute in ("<<<M1048>>>" ++ check (runes_of_ascii "packet A {
+ u8 x `d" ++ [8203]%N ++ runes_of_ascii "`, // c" ++ [8203]%N ++ runes_of_ascii "
+}")).
+Eval vm_compute in ("<<<M1080>>>" ++ check (runes_of_ascii "options { a = 1 // a
+ ; }")).
+Eval vm_compute in ("<<<M1809>>>" ++ check (runes_of_ascii "
+options	{// a
+		}
 
-    {
-	} ")).
-Eval vm_compute in ("<<<M167>>>" ++ check (runes_of_ascii "packet msg_type { repeat// " ++ [27880; 37322]%N ++ runes_of_ascii "
-zchar[  007] Logon `two words`, }
 ")).
-Eval vm_compute in ("<<<M1407>>>" ++ check (runes_of_ascii "packet
-
-body // c
-  {
-
-i32 f32a
-    `{ , }`,
-
-} options 
-{
+Eval vm_compute in ("<<<M244>>>" ++ check (runes_of_ascii "MetaData u128{} //x")).
+Eval vm_compute in ("<<<M1007>>>" ++ check (runes_of_ascii "// c" ++ [8202]%N ++ runes_of_ascii "
+packet A {
 }")).
-Eval vm_compute in ("<<<M1097>>>" ++ check (runes_of_ascii "packet A {
-    match k as n {
-        1 : B,// c
-    },
-}")).
-Eval vm_compute in ("<<<M1202>>>" ++ check (runes_of_ascii "packet body
-// c
-{ i32 f32a `{ , }` , } options { }")).
-Eval vm_compute in ("<<<M1073>>>" ++ check (runes_of_ascii "packet A {} packet B {} MetaData M {} options {}")).
-Eval vm_compute in ("<<<M1095>>>" ++ check (runes_of_ascii "packet A { char[ // a
- 3 // b
- ] // c
- x, }")).
-Eval vm_compute in ("<<<M1879>>>" ++ check (runes_of_ascii "  packet
-A 
-{
-
-u8	x	`d" ++ [8239]%N ++ runes_of_ascii "`
-, // c" ++ [8239]%N ++ runes_of_ascii "
-
-  }")).
-Eval vm_compute in ("<<<M952>>>" ++ check (runes_of_ascii "root packet A {
-    u8 x `x
-`,
-}")).
-Eval vm_compute in ("<<<M1018>>>" ++ check (runes_of_ascii "packet A {
- u8 x `d" ++ [8233]%N ++ runes_of_ascii "`, // c" ++ [8233]%N ++ runes_of_ascii "
-}")).
-Eval vm_compute in ("<<<M953>>>" ++ check (runes_of_ascii "packet A {
-    u8 x `
-x`,
-}")).
-Eval vm_compute in ("<<<M576>>>" ++ check (runes_of_ascii "
-packet
-    asx {match")).
-Eval vm_compute in ("<<<M1129>>>" ++ check (runes_of_ascii "
-// c
-MetaData u { }")).
-Eval vm_compute in ("<<<M991>>>" ++ check (runes_of_ascii "packet A {
-}
-// c" ++ [133]%N)).
-Eval vm_compute in ("<<<M1233>>>" ++ check (runes_of_ascii "packet x { }
-// c
+Eval vm_compute in ("<<<M729>>>" ++ check (runes_of_ascii "// only a comment")).
+Eval vm_compute in ("<<<M1735>>>" ++ check (runes_of_ascii "// @lengthOf(
+ 
 ")).
-Eval vm_compute in ("<<<M1422>>>" ++ check (runes_of_ascii "root packet A {
-}")).
-Eval vm_compute in ("<<<M749>>>" ++ check ([1; 65533]%N ++ runes_of_ascii ">&EQX" ++ [65533]%N ++ runes_of_ascii "P" ++ [65533; 65533]%N)).
-Eval vm_compute in ("<<<M754>>>" ++ check (runes_of_ascii "Y )'")).
+Eval vm_compute in ("<<<M1902>>>" ++ check (runes_of_ascii "
+
+  // " ++ [27880; 37322]%N ++ runes_of_ascii "
+")).
+Eval vm_compute in ("<<<M726>>>" ++ check (runes_of_ascii "
+	 ")).
